@@ -290,7 +290,7 @@ impl Prop for C03 {
         Ok(())
     }
     fn rule(&self) -> String {
-        "generated (site |lat|<=60, GMT within 3 h of lon/15, one of the 6 angle methods or custom Fajr/Isha angles in [9,21], Imsaak angle in [0.5,3], a second larger angle triple for the monotonicity clause, date mixture). Non-trivial = at least one of Fajr/Isha/Imsaak exists and had its altitude checked; distinct by hash of the case".into()
+        "generated (site |lat|<=60, GMT within 3 h of lon/15, one of the 6 angle methods or custom Fajr/Isha angles in [9,21], Imsaak angle in [0.5,3], a second larger angle triple for the monotonicity clause, date mixture). One case in 41 is boundary-directed (latitude bisected onto the existence boundary of Fajr/Isha/Imsaak, evaluated 0..1e-4 deg inside and 0..1e-3 deg beyond it); every case is preceded by a priming call with a sibling input on the same thread (history independence). Non-trivial = at least one of Fajr/Isha/Imsaak exists and had its altitude checked; distinct by hash of the case".into()
     }
     fn assumptions(&self) -> Vec<String> {
         vec![
